@@ -1656,6 +1656,9 @@ func (interpreter *Interpreter) declareNonEnumCompositeValue(
 				compositeType,
 				constructorGenerator,
 			)
+			if contractValue == nil {
+				return nil
+			}
 			contractValue.SetNestedVariables(nestedVariables)
 			return contractValue
 		})
